@@ -18,7 +18,11 @@ META = {
                    "yaml_loadable_complete_counterexample, crash_state_consistent and redeploy_after_crash_eq_clean (every crash state is "
                    "Consistent in the sense of C12, so the next deployment yields the clean result), crash_keeps_last_build_time. The check "
                    "evaluates the premises on the regenerated facts, replays the counterexamples on the implementation, and runs kill-point "
-                   "sweeps on three workspaces (empty build directory, after an edit, multi-buffer artefacts)."),
+                   "sweeps on five fixed workspaces (empty build directory, after an edit, multi-buffer artefacts, a deployment that moves a "
+                   "deprecated user copy to the trash and reuses a table whose source is gone, a prebuilt directory shadowed by the staging "
+                   "one) and generated ones. Where a kill leaves the primary table (or the prism next to a final table) of a schema "
+                   "unloadable, the run also continues in ONE process — sessions on that state (kept open), the repairing deployment, "
+                   "new sessions — and the new sessions must behave as on a clean deployment."),
     "level_note": ("Outside the theorems: a kill leaves exactly the stores executed (process kill, page cache intact — not a power loss); "
                    "the ≤16-byte format tag is modelled byte by byte, data blocks as atomic stores in program order; compiled YAML is modelled "
                    "at entry granularity (the byte-level cut is replayed on the real code); installation.yaml and user.yaml are written in place "
@@ -101,6 +105,37 @@ def scenario_big(rng):
     return {"name": "multi-buffer", "pre": [pre], "final": w.to_json()}
 
 
+def scenario_trash(rng):
+    """the killed deployment also moves a deprecated user copy of a schema to user/trash (and recompiles that schema from
+    the shared copy), applies a new patch, and finds a dictionary source gone (its table is reused while the prism is rebuilt)"""
+    w = dc.base_workspace(rng)
+    f = {k: v for k, v in w.files["shared/sc.schema.yaml"].items() if k != "mtime"}
+    w.put("user/sc.schema.yaml", dict(f, version="2", algebra=["derive/^d/t/"]))          # newer than the shared copy: kept, in use
+    pre = w.to_json()
+    w.put("user/sc.schema.yaml", dict(f, version="0.9", algebra=["derive/^b/p/"]))        # older: goes to the trash
+    w.put("user/sa.custom.yaml", {"kind": "custom", "patch": [["speller/algebra/+", ["derive/^g/k/"]]]})
+    w.remove("shared/db.dict.yaml")                                                       # sb keeps its table, gets no new one
+    return {"name": "trash-and-reuse", "pre": [pre], "final": w.to_json()}
+
+
+def scenario_prebuilt(rng):
+    """the shared directory ships a prebuilt `build` of the base sources; the killed deployment rebuilds, into the staging
+    directory, what an edited dictionary, an edited schema and a new patch made stale — a half-written file in the staging
+    directory shadows the complete prebuilt one.  (The model has no prebuilt directory: judged by the property alone.)"""
+    w = dc.base_workspace(rng)
+    pre = w.to_json()
+    rel = w.resolve("da.dict.yaml")
+    f = copy.deepcopy(w.files[rel])
+    f["rows"].append(["啊", "aa", 77])
+    w.put(rel, f)
+    rel = w.resolve("sb.schema.yaml")
+    f = copy.deepcopy(w.files[rel])
+    f["pad"] = 3
+    w.put(rel, f)
+    w.put("user/default.custom.yaml", {"kind": "custom", "patch": [["menu/page_size", 7]]})
+    return {"name": "prebuilt", "pre": [pre], "final": w.to_json(), "prebuilt": True}
+
+
 def scenario_random(rng, i):
     """a deployed workspace, then 2-4 generated edits (the C12 generator: rows, algebra, patches, imports, packs, schema list,
     vocabulary, shadow copies …); the deployment that follows is the one that gets killed"""
@@ -113,7 +148,33 @@ def scenario_random(rng, i):
     return {"name": "random-%d" % i, "pre": pre, "final": w.to_json(), "edits": names}
 
 
+def scenario_random_extra(rng, i):
+    """like scenario_random, with the wider edit vocabulary of C12 (sources that vanish and return, broken and repaired schemas
+    and dictionary headers, odd schema lists, user copies of every vintage, CRLF …); every deployment of the scenario, the
+    killed one included, is of deployable sources (the preparatory ones must succeed, and the clean one is the yardstick)"""
+    def view_ok(w):
+        return sources_seen(w).deployable()
+    w = dc.base_workspace(rng, big=(i % 3 == 2))
+    pre = [w.to_json()]
+    names = []
+    for k in range(rng.randint(1, 2)):
+        names += [dc.gen_edit(rng, w, extra=True) for _ in range(rng.randint(1, 3))]
+        if not view_ok(w):
+            names += w.repair()
+        if k == 0 and view_ok(w):
+            pre.append(w.to_json())
+    if not view_ok(w):
+        names += w.repair()
+    return {"name": "random-extra-%d" % i, "pre": pre, "final": w.to_json(), "edits": names}
+
+
 # ---------------------------------------------------------------------------------------------- helpers
+def sources_seen(w):
+    """the sources as the model sees them: without the user copies the deployment moves to user/trash (TrashDeprecatedUserCopy)"""
+    gone = [n for n in ["default.yaml"] + [s + ".schema.yaml" for s in w.all_sids()] if w.trash_expected(n)]
+    return w.without_user_copies(gone)
+
+
 def file_hashes(root):
     b = os.path.join(root, "user", "build")
     out = {}
@@ -160,6 +221,7 @@ class Sweep:
         self.c, self.runner, self.interposer, self.have_hooks = c, runner, interposer, have_hooks
         self.stats = {"kill_runs": 0, "fs_points": 0, "cp_points": 0, "torn_points": 0, "by_op": {}, "by_tag": {}, "class": {},
                       "redeploy_decisions": 0, "mismatches": 0, "partial_yaml_seen": 0, "detect_after_kill": 0}
+        self.cycles, self.cycle_all = {}, c.tier != "quick"      # same-process continuations already run
         self.viol = []      # (signature, what, replay)
         self.mm = []
         self.nontrivial = set()
@@ -176,15 +238,26 @@ class Sweep:
         for sj in sc["pre"]:
             w = dc.Workspace.from_json(sj)
             w.write(pre)
-            mlines += w.describe(intern) + ["deploy %d" % (w.clock + 3)]
+            mlines += sources_seen(w).describe(intern) + ["deploy %d" % (w.clock + 3)]
             r = self.runner.deploy(pre, w.clock + 3)
             if r["rc"] != 0:
                 raise vlib.BuildError("C13 scenario %s: the preparatory deployment failed: %s" % (sc["name"], r["raw"][-800:]))
+        if sc.get("prebuilt"):
+            # what was just built becomes the prebuilt directory shipped with the shared data; the staging directory starts empty
+            shutil.move(os.path.join(pre, "user", "build"), os.path.join(pre, "shared", "build"))
+            os.makedirs(os.path.join(pre, "user", "build"))
+            r = self.runner.deploy(pre, w.clock + 4)
+            mlines += sources_seen(w).describe(intern) + ["deploy %d" % (w.clock + 4)]
+            if r["rc"] != 0 or r["rewritten"]:
+                self.viol.append(("C13:prebuilt-not-used", "a deployment over prebuilt data of the same sources wrote %s (exit %d)" % (r["rewritten"], r["rc"]),
+                                  {"kind": "impl-violation", "scenario": sc}))
         w = dc.Workspace.from_json(sc["final"])
         w.write(pre)
         self.runner.set_sentinels(pre)
         now = w.clock + 3
-        info = {"pre": pre, "w": w, "now": now, "intern": intern, "mlines": mlines, "tag": tag, "sc": sc}
+        # the sources as the model sees them: without the user copies this deployment moves to user/trash
+        view = sources_seen(w)
+        info = {"pre": pre, "w": w, "view": view, "now": now, "intern": intern, "mlines": mlines, "tag": tag, "sc": sc}
         info["pre_hashes"] = file_hashes(pre)
         info["pre_dump"] = self.runner.dump(pre)
         # reference: the same deployment, not killed, with traces
@@ -197,7 +270,11 @@ class Sweep:
         env = {"LD_PRELOAD": self.interposer, "VERIF_FS_ROOT": ref + "/", "VERIF_FS_TRACE": trace, "VERIF_CP_TRACE": "1"}
         r = self.runner.deploy(ref, now, extra_env=env)
         if r["rc"] != 0:
-            raise vlib.BuildError("C13 scenario %s: the reference deployment failed: %s" % (sc["name"], r["raw"][-800:]))
+            # the sources of a scenario are deployable (its earlier deployments succeeded; what vanished since has an artefact to
+            # reuse): an uninterrupted deployment that fails is no kill-point matter, but it is this input that shows it
+            self.viol.append(("C13:deploy-fails:uninterrupted", "the deployment of scenario %s fails without any kill (exit %d): %s" % (
+                sc["name"], r["rc"], " | ".join(r["raw"].strip().splitlines()[-3:])[:300]), {"kind": "impl-violation", "scenario": sc, "kill": []}))
+            return None
         info["ref"] = ref
         info["ref_dump"] = self.runner.dump(ref)
         info["ref_hashes"] = file_hashes(ref)
@@ -212,6 +289,8 @@ class Sweep:
         rc_ = self.runner.deploy(clean, now)
         info["clean_dump"] = self.runner.dump(clean)
         info["clean_ok"] = rc_["tasks"].get("workspace_update")
+        info["pairs"] = dc.session_inputs(view)
+        info["clean_session"] = self.runner.session(clean, info["pairs"])[1] if info["pairs"] else []
         shutil.rmtree(clean, ignore_errors=True)
         d = dc.compare_dumps(info["ref_dump"], info["clean_dump"])
         if d:
@@ -254,6 +333,10 @@ class Sweep:
                         pts += [("cp", k) for k in ks[:3]]
                     if t in ("mapped_file.resize:after",):
                         pts += [("cp", k) for k in ks]      # every resize: the in-place window
+                    if t == "mapped_file.allocate" and len(ks) > 3:
+                        # ... and allocations spread over the whole deployment: inside the build of every table, prism and
+                        # reverse db of every dictionary (the first three are all inside the first table)
+                        pts += [("cp", ks[(j * (len(ks) - 1)) // 11]) for j in range(12)]
                 extra = list(range(1, len(cps) + 1))
                 rng.shuffle(extra)
                 pts += [("cp", k) for k in extra[:10]]
@@ -334,8 +417,58 @@ class Sweep:
             self.stats["class"][v] = self.stats["class"].get(v, 0) + 1
         if len(set(classes.values())) > 1:
             self.nontrivial.add((info["tag"],) + tuple(pt))
+        # ---- the same process goes on: sessions on what the kill left, the repairing deployment, new sessions.  Judged for the
+        # schemas whose dictionary could not be loaded before the deployment (the primary table, or the prism next to a table
+        # that is already the final one, is unloadable) and whose compiled configs are already the final ones: nothing of them
+        # can legitimately be kept open from before, so the sessions opened after the deployment must behave like sessions
+        # on a clean deployment.  (Artefacts that *did* load stay cached while a session holds them — by design, not judged.)
+        # (not over a prebuilt directory: a Table / Prism object created before the deployment keeps the path it was resolved to —
+        # the prebuilt file while the staging directory had none — for as long as a session holds it: stale by design of that cache)
+        if info.get("pairs") and not info["sc"].get("prebuilt"):
+            def broken(n):
+                return classes.get(n, "") == "unloadable" or classes.get(n, "").startswith("zero-length")
+
+            def settled(n):
+                return n in left and left.get(n) == info["ref_hashes"].get(n)
+            elig = []
+            for sid, _ in info["pairs"]:
+                e = info["view"].effective_schema(sid)
+                t, p = e["dict"] + ".table.bin", e["prism"] + ".prism.bin"
+                packs = [q + ".table.bin" for q in e["packs"]]
+                if settled(sid + ".schema.yaml") and settled("default.yaml") and (
+                        broken(t) or (broken(p) and settled(t) and all(settled(q) for q in packs if q in info["ref_hashes"]))):
+                    elig.append(sid)
+            # quick: once per distinct set of unloadable files (and kind of kill point) of a scenario; thorough: every time
+            key = (info["tag"], tuple(sorted(n for n in classes if broken(n))), where.split(" ")[1] if " " in where else where)
+            if elig and (self.cycle_all or key not in self.cycles):
+                self.cycles[key] = 1
+                wc = work + "_c"
+                shutil.rmtree(wc, ignore_errors=True)
+                shutil.copytree(work, wc, symlinks=True)
+                rcc, t1, t2, rawc = dc.cycle(runner, wc, info["pairs"], now + 4)
+                self.stats["same_process_cycles"] = self.stats.get("same_process_cycles", 0) + 1
+                for n in classes:
+                    if broken(n):
+                        self.stats.setdefault("same_process_cycles_over_unloadable", {})[kind_of(n)] = self.stats.setdefault("same_process_cycles_over_unloadable", {}).get(kind_of(n), 0) + 1
+                if os.environ.get("VERIF_C13_TRACE"):
+                    print("cycle", where, elig, [n for n in classes if broken(n)], "t1", [l for l in t1 if l.split(" ")[1] in elig][:2], "t2", [l for l in t2 if l.split(" ")[1] in elig][:2], "rc", rcc)
+                if rcc != 0:
+                    out.append(("C13:same-process-redeploy:crash", "kill at %s, then in one process: sessions, deployment, sessions — the process "
+                                "exits with %d: %s" % (where, rcc, rawc.strip()[-300:])))
+                else:
+                    for sid in elig:
+                        a = [l for l in t2 if l.split(" ")[1] == sid]
+                        b = [l for l in info["clean_session"] if l.split(" ")[1] == sid]
+                        if a != b:
+                            first = next((x for x, y in zip(a, b) if x != y), "length %d / %d" % (len(a), len(b)))
+                            out.append(("C13:same-process-redeploy:session-differs",
+                                        "kill at %s leaves %s unloadable; a process that opens sessions on that state, then deploys (the files on disk "
+                                        "are repaired), then opens new sessions: schema %s does not behave as after a clean deployment, first "
+                                        "difference: %s" % (where, [n for n in classes if broken(n)], sid, first)))
+                            break
+                shutil.rmtree(wc, ignore_errors=True)
         # ---- model: the crash state in the terms of C12, and the redeployment
-        w, intern = info["w"], info["intern"]
+        w, intern = info["view"], info["intern"]
         ml = list(info["mlines"]) + ["mark"] + w.describe(intern) + ["deploy %d" % now]
         for n in set(info["ref_hashes"]) | set(left):
             if kind_of(n) == "other":
@@ -372,13 +505,19 @@ class Sweep:
             for n, whatd in diffs:
                 if kind_of(n) == "yaml":
                     sz = os.path.getsize(os.path.join(work, "user", "build", n)) if os.path.exists(os.path.join(work, "user", "build", n)) else -1
+                    full = os.path.getsize(os.path.join(info["ref"], "user", "build", n)) if os.path.exists(os.path.join(info["ref"], "user", "build", n)) else -1
+                    if full > 0 and sz >= 0.95 * full:
+                        # nothing is cut: the config is complete, but not the one a clean deployment compiles
+                        out.append(("C13:after-redeploy-differs:yaml", "after a kill at %s and a redeployment, %s: %s (%d bytes; the uninterrupted "
+                                    "deployment leaves %d)" % (where, n, whatd, sz, full)))
+                        continue
                     out.append(("C13:yaml-truncated:%s" % yaml_class(n),
                                 "kill at %s leaves build/%s cut to %d bytes (complete: %d); it parses, its leading __build_info matches the "
                                 "sources, and the next deployment keeps it as up to date" % (
                                     where, n, sz, os.path.getsize(os.path.join(info["ref"], "user", "build", n)))))
                 else:
                     out.append(("C13:after-redeploy-differs:%s" % kind_of(n), "after a kill at %s and a redeployment, %s: %s" % (where, n, whatd)))
-            if blocks:
+            if blocks and not info["sc"].get("prebuilt"):
                 mv = c12.model_view(blocks[-1])
                 mm = c12.correspond(mv, r2, d2, {"m2r": {}, "r2m": {}}, self.have_hooks)
                 self.stats["redeploy_decisions"] += len(mv["decisions"])
@@ -411,6 +550,8 @@ class Sweep:
 
     def run_scenario(self, sc, tag, quick):
         info = self.prepare(sc, tag)
+        if info is None:
+            return {"fs_ops": 0, "crash_points": 0, "kill_points_run": 0, "uninterrupted_deployment_failed": True}
         pts = self.choose(info, quick)
         for pt in pts:
             for v in self.kill_run(info, pt):
@@ -459,6 +600,8 @@ def run(c):
         if rec.get("match", {}).get("type") == "cp" and not have_hooks:
             continue
         info = sw.prepare(rec["scenario"], "corpus")
+        if info is None:
+            continue
         pt = resolve_kill(info, rec)
         if pt is None:
             continue          # the call the recipe names no longer exists on this tree
@@ -470,12 +613,15 @@ def run(c):
         for t in ("_pre", "_ref"):
             shutil.rmtree(os.path.join(c.work, "corpus" + t), ignore_errors=True)
     per = {}
-    for i, mk in enumerate((scenario_small, scenario_edit, scenario_big)):
+    for i, mk in enumerate((scenario_small, scenario_edit, scenario_big, scenario_trash, scenario_prebuilt)):
         sc = mk(random.Random(c.seed * 100 + i))
         per[sc["name"]] = sw.run_scenario(sc, "s%d" % i, quick)
     for i in range(2 if quick else 24):
         sc = scenario_random(random.Random(c.seed * 1000 + i), i)
         per[sc["name"]] = dict(sw.run_scenario(sc, "r%d" % i, quick), edits=sc["edits"])
+    for i in range(1 if quick else 16):
+        sc = scenario_random_extra(random.Random(c.seed * 1000 + 500 + i), i)
+        per[sc["name"]] = dict(sw.run_scenario(sc, "x%d" % i, quick), edits=sc["edits"])
     # premises of the conditional theorems, evaluated on the regenerated facts
     premises = {"reverse_loadable_complete": facts["reverseRemovedFirst"], "yaml_loadable_complete": not facts["yamlSavedInPlace"]}
     # verdicts
@@ -520,7 +666,9 @@ def run(c):
         "source_hash": vlib.source_hash(SRC_FILES), "proof_failures": audit["failures"], "flavour": FLAVOUR,
     })
     c.cov = cov
-    c.assumptions = ["a kill is a process kill: stores already executed on MAP_SHARED mappings and completed write()s survive, nothing else does",
+    c.assumptions = ["same-process continuation: judged only for schemas none of whose artefacts could be loaded before the deployment (what did load "
+                     "stays cached while a session holds it, by design)",
+                     "a kill is a process kill: stores already executed on MAP_SHARED mappings and completed write()s survive, nothing else does",
                      "the sources do not change between the killed deployment and the next one",
                      "hypotheses of C12 (deployable sources, mtimes identify contents, checksums injective on the contents at hand)",
                      "the format tag store is not reordered before the data stores by the compiler (the hooks are opaque calls between them)"]
@@ -549,6 +697,11 @@ def replay(c, r):
     gen, runner, interposer = setup(c)
     sw = Sweep(c, runner, interposer, dc.hooks_present())
     info = sw.prepare(r["scenario"], "replay")
+    if info is None or not r.get("kill"):
+        for sig, what, _ in sw.viol:
+            print("replay: %s: %s" % (sig, what))
+        print("replay: scenario %s without a kill -> %s" % (r["scenario"]["name"], "FAILS" if sw.viol else "ok"))
+        return 1 if sw.viol else 0
     pt = resolve_kill(info, r) or tuple(r["kill"])
     if len(pt) < 2 or not pt[1]:
         print("replay: the call this recipe names does not exist on this tree")
